@@ -5,6 +5,8 @@ CHECKS = {
              note='Trusted: MIR parser, Python models of String/Vec/HashMap/format!/regex (validated on every stub-free leaf against the natively compiled from_line), stubs for env::var / glob / command substitution; execve and kernel outside. Known findings (escape handling of the tokenizer) listed in known_findings.json.',
              design='6/C01'),
 }
+CHECKS['C03'] = dict(text='Bounded symbolic execution (z3) of the MIR of execute::run_command_line + line_to_cmds for every line of 1..4 (thorough 6) pipelines and every operator sequence over {;, &&, ||} with symbolic exit statuses (0..255); oracle: reference short-circuit semantics, $? (previous_status) seen by every executed pipeline, final status. Every leaf is additionally run through the real binary (`cicada -c`) and its trace and exit code compared.',
+             note='run_proc is stubbed (arbitrary status); operator sequences are enumerated, statuses are solver variables; main.rs exit wiring only via the binary replay.', design='6/C03')
 NA = {}
 ALL = ['C%02d' % i for i in range(1, 21)]
 m = dict(version=1, setup_cmd='./setup.sh',
